@@ -90,25 +90,28 @@ class CoreGen:
         if k == "pop":
             return self.expr(2) + ["POP"]
         if k == "dupswap":
-            return self.expr(1) + self.expr(1) + [r.choice(["SWAP1", "DUP2", "DUP1"]), "POP", "POP"] + (["POP"] if False else [])
+            op = r.choice(["SWAP1", "DUP2", "DUP1"])
+            return self.expr(1) + self.expr(1) + [op, "POP", "POP"] + (["POP"] if op != "SWAP1" else [])   # stack-neutral
         if k == "if":
             els, end = self.fresh(), self.fresh()
             return (self.cond() + [("ref", els), "JUMPI"] + self.block(d - 1) + [("ref", end), "JUMP", ("label", els)]
                     + self.block(d - 1) + [("label", end)])
         # loop: the counter lives on the stack; a symbolic trip count uses an argument no other loop counts on
         top, end = self.fresh(), self.fresh()
-        if self.loop_args and r.random() < 0.6:
-            n = self.arg(self.loop_args.pop()) + [("push", r.choice([3, 7])), "AND"]
+        symbolic = bool(self.loop_args) and r.random() < 0.6
+        if symbolic:
+            n = self.arg(self.loop_args.pop()) + [("push", 7), "AND"]
             self.count("loop:symbolic")
         else:
             n = [("push", r.randrange(0, 4))]
             self.count("loop:concrete")
         if r.random() < 0.4:
             # do-while: the *taken* branch of the JUMPI continues the loop (exercises the `True` visit counter and a
-            # bit-vector, not Bool, condition); a concrete count starts at 1 or more
+            # bit-vector, not Bool, condition). The count is at least 1 — `(arg & 7) + 1` or a literal 1..3 — so that the
+            # counter cannot wrap around within the at most 4 iterations `--loop <= 3` allows (after a wrap z3 proves the
+            # condition true and the real engine, rightly, loops 2^256 times).
             self.count("loop:do-while")
-            if n[0][0] == "push" and len(n) == 1:
-                n = [("push", r.randrange(1, 4))]
+            n = (n + [("push", 1), "ADD"]) if symbolic else [("push", r.randrange(1, 4))]
             return (n + [("label", top)] + self.block(0)
                     + [("push", 1), "SWAP1", "SUB", "DUP1", ("ref", top), "JUMPI", "POP"])
         return (n + [("label", top), "DUP1", "ISZERO", ("ref", end), "JUMPI"] + self.block(0)
@@ -200,7 +203,7 @@ def compare_core(ctx, n):
     """n generated programs, each under one random configuration (--loop, --depth, oracle). Returns the list of
     mismatches (dicts: code, nargs, loop, depth, oracle, impl, model); empty when model and implementation agree."""
     rng = ctx.rng
-    cases, lines = [], []
+    progs, q = [], []
     for _ in range(n):
         nargs = rng.choice([1, 2, 3, 4])
         g = CoreGen(rng, nargs)
@@ -211,11 +214,25 @@ def compare_core(ctx, n):
         for k, v in g.hist.items():
             ctx.count("core:" + k, v)
         loop = rng.choice([1, 2, 2, 3])
-        depth = rng.choice([0, 0, 0, rng.randrange(5, 60)])
         oracle = rng.choice(["unknown", "unknown", "sat"])
+        progs.append((code, nargs, loop, oracle))
+        q.append(f"steps {code.hex()} {nargs} {loop} 20000 {oracle}")
+    drv = ctx.lean("Sevm")
+    # --depth is placed at the exact number of worklist iterations of the run (and one below / above), where an
+    # off-by-one in the cut or in the number of steps a branch takes changes the set of end states
+    cases, lines = [], []
+    for (code, nargs, loop, oracle), rep in zip(progs, drv.ask(q)):
+        total = int(rep.split("=", 1)[1]) if rep.startswith("steps=") else 0
+        pick = rng.random()
+        if total <= 1 or pick < 0.4:
+            depth = 0
+        elif pick < 0.85:
+            depth = max(1, total + rng.choice([-1, 0, 0, 1]))
+        else:
+            depth = rng.randrange(1, total + 1)
         cases.append((code, nargs, loop, depth, oracle))
         lines.append(f"run {code.hex()} {nargs} {loop} {depth} 20000 {oracle}")
-    replies = ctx.lean("Sevm").ask(lines)
+    replies = drv.ask(lines)
     stale = []
     for (code, nargs, loop, depth, oracle), rep in zip(cases, replies):
         impl = impl_summary(code, nargs, loop, depth, oracle)
@@ -223,11 +240,16 @@ def compare_core(ctx, n):
         ctx.case(("core", code, loop, depth, oracle))
         ctx.count("core:oracle-" + oracle)
         ctx.count("core:depth-limited" if depth else "core:depth-unlimited")
-        if impl == "timeout":
-            ctx.count("core:impl-timeout-8s")
-            continue
         if " fuelout=1" in rep:
-            ctx.count("core:model-fuel-out")
+            # the model's 20000 steps did not suffice (e.g. a loop whose conditions start repeating is followed for ever
+            # once the quick checks classify it): nothing to compare
+            ctx.count("core:model-fuel-out" + ("+impl-timeout" if impl == "timeout" else ""))
+            continue
+        if impl == "timeout":
+            # the model finished but the real engine did not come back within 8 s: a divergence (non-termination)
+            ctx.count("core:impl-timeout-8s")
+            stale.append({"code": code.hex(), "nargs": nargs, "loop": loop, "depth": depth, "oracle": oracle,
+                          "impl": "timeout(8s)", "model": model[:300]})
             continue
         ctx.count("core:bounded" if "bounded=0" not in impl else "core:unbounded")
         ctx.count("core:depthcut" if "depthcut=1" in impl else "core:no-depthcut")
